@@ -1764,7 +1764,88 @@ def gen_c15(repo):
     if len(cs) != 1 or 'self._with_rdd(self._rdd.union(other.rdd().map(change_col_names)), self.bound_schema)' not in ast.unparse(fn):
         raise NotTranslatable('union shape')
     out += 'def unionOtherRowNames (schema : Names) (rowValues : List Unit) : Names :=\n  %s\n' % t.comp(cs[0])
-    return 'pysparkling/sql/internals.py (DataFrameInternal.withColumnRenamed, toDF, drop, union: schema and row comprehensions)', out
+    out += gen_with_column(repo, method('withColumn'))
+    return ('pysparkling/sql/internals.py (DataFrameInternal.withColumnRenamed, toDF, drop, union: schema and row comprehensions; '
+            'withColumn: the projection it builds), pysparkling/sql/expressions/fields.py (FieldAsExpression.eval)'), out
+
+
+class TrColRef(TrNames):
+    """the elements of the projection `withColumn` hands to `select`: the new column, or a field of the current frame - referred to
+    by its POSITION (`FieldAsExpression(field, position)`, both taken from the same `enumerate`) or by the field alone"""
+
+    def name_of(self, e, env):
+        if isinstance(e, ast.Name) and e.id == 'new_col':
+            return 'ColRef.new'
+        if isinstance(e, ast.Call) and ast.unparse(e.func) == 'parse' and len(e.args) == 1 and isinstance(e.args[0], ast.Call) \
+                and ast.unparse(e.args[0].func) == 'FieldAsExpression' and not e.args[0].keywords:
+            a = e.args[0].args
+            if len(a) == 2 and all(isinstance(x, ast.Name) and x.id in env for x in a) and env[a[0].id] == 'p.2' and env[a[1].id] == 'p.1':
+                return '(ColRef.at p.1)'
+            raise NotTranslatable('FieldAsExpression without the position of its field: ' + ast.unparse(e)[:80])
+        if isinstance(e, ast.IfExp):
+            return '(if %s then %s else %s)' % (self.test(e.test, env), self.name_of(e.body, env), self.name_of(e.orelse, env))
+        raise NotTranslatable('projection element ' + ast.unparse(e)[:80])
+
+    def test(self, e, env):
+        if isinstance(e, ast.Compare) and len(e.ops) == 1 and isinstance(e.ops[0], ast.Eq):
+            return '(%s = %s)' % (TrNames.name_of(self, e.left, env), TrNames.name_of(self, e.comparators[0], env))
+        raise NotTranslatable('test ' + ast.unparse(e)[:80])
+
+
+def gen_with_column(repo, fn):
+    """`DataFrameInternal.withColumn(colName, col)` and the evaluation of the field references it builds"""
+    body = [st for st in fn.body if not (isinstance(st, ast.Expr) and isinstance(st.value, ast.Constant))]
+    if len(body) != 3 or ast.unparse(body[0]) != 'new_col = parse(col).alias(colName)' or not isinstance(body[1], ast.If) \
+            or body[1].orelse or len(body[1].body) != 1 or ast.unparse(body[2]) != "return self.select(parse('*'), new_col)":
+        raise NotTranslatable('withColumn shape')
+    test = body[1].test
+    if not (isinstance(test, ast.Call) and ast.unparse(test.func) == 'any' and len(test.args) == 1 and isinstance(test.args[0], ast.GeneratorExp)
+            and len(test.args[0].generators) == 1 and not test.args[0].generators[0].ifs
+            and ast.unparse(test.args[0].generators[0].iter) == 'self.bound_schema.fields'
+            and isinstance(test.args[0].generators[0].target, ast.Name)):
+        raise NotTranslatable('withColumn: the test for an existing column')
+    t = TrColRef({'self.bound_schema.fields': 'schema'})
+    env = {test.args[0].generators[0].target.id: 'field', 'colName': 'colName'}
+    exists = '(schema.any fun field => decide %s)' % t.test(test.args[0].elt, env)
+    ret = body[1].body[0]
+    if not (isinstance(ret, ast.Return) and isinstance(ret.value, ast.Call) and ast.unparse(ret.value.func) == 'self.select'
+            and len(ret.value.args) == 1 and isinstance(ret.value.args[0], ast.Starred) and not ret.value.keywords):
+        raise NotTranslatable('withColumn: the replacing projection')
+    comp = ret.value.args[0].value
+    if not (isinstance(comp, ast.ListComp) and len(comp.generators) == 1 and ast.unparse(comp.generators[0].iter) == 'enumerate(self.bound_schema.fields)'):
+        raise NotTranslatable('withColumn: the replacing projection is not a comprehension over the enumerated fields')
+
+    class T2(TrColRef):
+        def comp(self, e):
+            g = e.generators[0]
+            src, _ = self.source(g.iter)
+            if g.ifs or not (isinstance(g.target, ast.Tuple) and len(g.target.elts) == 2 and all(isinstance(x, ast.Name) for x in g.target.elts)):
+                raise NotTranslatable('comprehension target')
+            env2 = {g.target.elts[0].id: 'p.1', g.target.elts[1].id: 'p.2', 'colName': 'colName'}
+            return '(%s.map fun p => %s)' % (src, self.name_of(e.elt, env2))
+    sel = T2({'self.bound_schema.fields': 'schema'}).comp(comp)
+    # FieldAsExpression.eval: the position, when given, decides
+    ftree = parse(repo, 'pysparkling/sql/expressions/fields.py')
+    fcls = find_class(ftree, 'FieldAsExpression')
+    ev = [n for n in fcls.body if isinstance(n, ast.FunctionDef) and n.name == 'eval']
+    init = [n for n in fcls.body if isinstance(n, ast.FunctionDef) and n.name == '__init__']
+    if len(ev) != 1 or len(init) != 1 or 'self.position = position' not in [ast.unparse(x) for x in init[0].body] \
+            or [a.arg for a in init[0].args.args] != ['self', 'field', 'position']:
+        raise NotTranslatable('FieldAsExpression.__init__ / eval')
+    eb = [st for st in ev[0].body if not (isinstance(st, ast.Expr) and isinstance(st.value, ast.Constant))]
+    if len(eb) != 2 or ast.unparse(eb[0]) != 'if self.position is not None:\n    return row[self.position]' \
+            or ast.unparse(eb[1]) != 'return row[find_position_in_schema(schema, self.field)]':
+        raise NotTranslatable('FieldAsExpression.eval shape')
+    return ('\n/-- an element of the projection `withColumn` hands to `select`: the new column, or the field at a position of the frame -/\n'
+            'inductive ColRef where\n  | new\n  | at (position : Nat)\n  deriving DecidableEq, Repr\n\n'
+            '/-- `any(field.name == colName for field in self.bound_schema.fields)`: the replacing branch is taken -/\n'
+            'def withColumnReplaces (colName : String) (schema : Names) : Bool :=\n  %s\n'
+            '/-- the projection of the replacing branch, one element per field of the frame -/\n'
+            'def withColumnSelection (colName : String) (schema : Names) : List ColRef :=\n  %s\n'
+            '/-- `FieldAsExpression.eval` of a reference that carries its position: `row[self.position]` (`none` = IndexError);\n'
+            'the new column evaluates to the value `v` of its expression on the row -/\n'
+            'def ColRef.eval {α : Type} (v : α) (row : List α) : ColRef → Option α\n  | .new => some v\n  | .at position => row[position]?\n'
+            % (exists, sel))
 
 
 # ---- C05: CacheManager, TimedCacheManager, PersistedRDD.compute ------------------------------------
